@@ -269,7 +269,7 @@ func Run(h *History, o RunOpts) *Recording {
 			all := true
 			for _, m := range ms {
 				rk, dk := m.awaited()
-				if rk != "" && !s.replies[rk] || dk != "" && s.diags[dk] == 0 {
+				if rk != "" && !s.replies[rk] || dk != "" && s.diags[dk] < m.DiagOrdinal {
 					all = false
 					break
 				}
